@@ -86,6 +86,57 @@ fn decorate_foreign(ast: &mut syn::DeriveInput, which: usize) {
     }
 }
 
+/// Puts the given outer attribute(s) on the first / last / every field or variant of the item (request key `decorate`:
+/// `{"level": "field"|"variant", "which": "first"|"last"|"all", "attr": "#[..]"}`), so that generators can combine helper
+/// attributes with arbitrary shapes without a Rust tokenizer of their own.  Returns false if there is nothing to decorate.
+fn decorate(ast: &mut syn::DeriveInput, level: &str, which: &str, attr: &str) -> bool {
+    use syn::parse::Parser;
+    let Ok(attrs) = syn::Attribute::parse_outer.parse_str(attr) else { return false };
+    let pick = |n: usize| -> Vec<usize> {
+        match which {
+            _ if n == 0 => vec![],
+            "first" => vec![0],
+            "last" => vec![n - 1],
+            _ => (0..n).collect(),
+        }
+    };
+    let mut done = false;
+    let mut on_fields = |fs: &mut syn::Fields, done: &mut bool| {
+        let n = fs.len();
+        let idx = pick(n);
+        for (i, f) in fs.iter_mut().enumerate() {
+            if idx.contains(&i) {
+                f.attrs.extend(attrs.iter().cloned());
+                *done = true;
+            }
+        }
+    };
+    match &mut ast.data {
+        syn::Data::Struct(s) => {
+            if level == "field" {
+                on_fields(&mut s.fields, &mut done);
+            }
+        }
+        syn::Data::Enum(e) => {
+            if level == "variant" {
+                let idx = pick(e.variants.len());
+                for (i, v) in e.variants.iter_mut().enumerate() {
+                    if idx.contains(&i) {
+                        v.attrs.extend(attrs.iter().cloned());
+                        done = true;
+                    }
+                }
+            } else {
+                for v in e.variants.iter_mut() {
+                    on_fields(&mut v.fields, &mut done);
+                }
+            }
+        }
+        syn::Data::Union(_) => {}
+    }
+    done
+}
+
 pub fn main(args: &[String]) -> i32 {
     let serial = args.iter().any(|a| a == "--serial");
     let stdin = std::io::stdin();
@@ -102,7 +153,22 @@ pub fn main(args: &[String]) -> i32 {
             return serde_json::json!({"id": id, "k": "badreq", "msg": format!("unknown derive {dname}")}).to_string();
         };
         let t0 = std::time::Instant::now();
-        let o = if v.get("group").and_then(|c| c.as_bool()).unwrap_or(false) {
+        let mut decorated_text: Option<String> = None;
+        let o = if let Some(dec) = v.get("decorate") {
+            use quote::ToTokens;
+            match std::panic::catch_unwind(|| syn::parse_str::<syn::DeriveInput>(item)) {
+                Ok(Ok(mut ast)) => {
+                    if decorate(&mut ast, dec["level"].as_str().unwrap_or(""), dec["which"].as_str().unwrap_or(""), dec["attr"].as_str().unwrap_or("")) {
+                        decorated_text = Some(ast.to_token_stream().to_string());
+                        expand_ast(d, &ast)
+                    } else {
+                        Outcome::ParseFail("nothing to decorate".into())
+                    }
+                }
+                Ok(Err(e)) => Outcome::ParseFail(e.to_string()),
+                Err(_) => Outcome::ParseFail("panic while parsing item".into()),
+            }
+        } else if v.get("group").and_then(|c| c.as_bool()).unwrap_or(false) {
             // every field type wrapped in a None-delimited group, which is what a derive receives for `$t:ty` fragments of a
             // `macro_rules!`-generated item (`syn::Type::Group`); text alone can never produce this shape
             match std::panic::catch_unwind(|| syn::parse_str::<syn::DeriveInput>(item)) {
@@ -117,6 +183,9 @@ pub fn main(args: &[String]) -> i32 {
             expand_str(d, item)
         };
         let mut j = outcome_json(&id, &o, t0.elapsed().as_micros());
+        if let Some(t) = decorated_text {
+            j["item"] = serde_json::json!(t);
+        }
         if let Some(which) = v.get("foreign").and_then(|c| c.as_u64()) {
             // the same item with an unrelated attribute before and after the attributes of the item, of every variant and of every
             // field: the outcome must be the same (compared here, so that only a verdict travels)
